@@ -12,7 +12,9 @@ from .vlib import COQ, Check, ImplTimeout, cps, hexs, uncps, with_timeout
 
 PID = "C15"
 CLAIM = dict(
-    text="Coq theorems over executable models of DispatcherMiddleware.__call__ (script ++ path_info is the original PATH_INFO, the "
+    text="Coq theorems over executable models of sansio.utils.get_host (nothing but an exact ':80' / ':443' suffix of the matching "
+         "scheme is ever removed, and it is removed whatever the host ends with; the rules are regenerated from the source), of "
+         "DispatcherMiddleware.__call__ (script ++ path_info is the original PATH_INFO, the "
          "chosen mount is the longest '/'-bounded prefix that is a mount, the default application only when none is; the loop's fuel "
          "is never exhausted), of the PEP 3333 latin-1 dance (lossless on every Unicode scalar-value string), of urllib's quote as "
          "used by iri_to_uri / get_current_url (pure ASCII output; idempotent because '%' is in each of the five safe sets "
@@ -21,7 +23,8 @@ CLAIM = dict(
          "iri_to_uri produces from text without a percent sign; on those, iri_to_uri then uri_to_iri is the identity up to the "
          "component's reserved characters). Safe sets, protected tables and the statement skeletons are "
          "regenerated from the source on every run; the models are compared with werkzeug and urllib on ~110k cases per quick run "
-         "and the EnvironBuilder -> Request round trip is exercised end to end.",
+         "and the EnvironBuilder -> Request round trip is exercised end to end (values given through the constructor or assigned to "
+         "path / script_root / base_url afterwards; hosts ending in digits with explicit default ports; SERVER_NAME fallback).",
     note="Trusted: Coq kernel; translator tools/c15.py; extraction + driver; hand-written models of urllib.parse.quote/unquote and of "
          "the UTF-8 decoder's error ranges (validated differentially); urlsplit/urlunsplit, IDNA and the netloc assembly are "
          "harness-side (the component functions are modelled, whole URLs are split and reassembled by the interpreter); "
@@ -135,6 +138,64 @@ DEFAULTS = dict(i2u_safe={"path": "%!$&'()*+,/:;=@", "query": "%!$&'()*+,/:;=?@"
                           "user": "%!$&'()*+,;=", "password": "%!$&'()*+,;="})
 
 
+GET_HOST = [
+    "host = ''",
+    "if host_header is not None:\n    host = host_header\nelif server is not None:\n    host = server[0]\n"
+    "    if ':' in host and host[0] != '[':\n        host = f'[{host}]'\n    if server[1] is not None:\n"
+    "        host = f'{host}:{server[1]}'",
+    "if scheme in {'<SCHEMES0>'} and host.endswith('<SUFFIX0>'):\n    host = host[:-0]\n"
+    "elif scheme in {'<SCHEMES1>'} and host.endswith('<SUFFIX1>'):\n    host = host[:-0]",
+    "if trusted_hosts is not None:\n    if not host_is_trusted(host, trusted_hosts):\n"
+    "        raise SecurityError(f'Host {host!r} is not trusted.')",
+    "return host",
+]
+
+
+def _default_port_rules(fn: ast.FunctionDef):
+    """T2 for the default-port stripping of get_host: the chain
+       `if scheme in {...} and host.endswith(S): host = host[:-k]  elif ...` -> [(schemes, S, k)], constants cut out of fn"""
+    chain = [st for st in _body(fn) if isinstance(st, ast.If) and "endswith" in ast.unparse(st.test)]
+    if len(chain) != 1:
+        raise px.Unsupported("get_host: the default-port statement was not found")
+    rules = []
+    node = chain[0]
+    while True:
+        t = node.test
+        ok = (isinstance(t, ast.BoolOp) and isinstance(t.op, ast.And) and len(t.values) == 2
+              and isinstance(t.values[0], ast.Compare) and len(t.values[0].ops) == 1 and isinstance(t.values[0].ops[0], ast.In)
+              and _name(t.values[0].left, "scheme") and isinstance(t.values[0].comparators[0], ast.Set)
+              and isinstance(t.values[1], ast.Call) and ast.unparse(t.values[1].func) == "host.endswith"
+              and len(t.values[1].args) == 1 and not t.values[1].keywords and isinstance(t.values[1].args[0], ast.Constant)
+              and isinstance(t.values[1].args[0].value, str)
+              and len(node.body) == 1 and isinstance(node.body[0], ast.Assign) and ast.unparse(node.body[0].targets[0]) == "host")
+        if not ok:
+            raise px.Unsupported(f"get_host: default-port branch not recognised: {ast.unparse(node.test)}")
+        v = node.body[0].value
+        if not (isinstance(v, ast.Subscript) and _name(v.value, "host") and isinstance(v.slice, ast.Slice) and v.slice.lower is None
+                and v.slice.step is None and isinstance(v.slice.upper, ast.UnaryOp) and isinstance(v.slice.upper.op, ast.USub)
+                and isinstance(v.slice.upper.operand, ast.Constant) and isinstance(v.slice.upper.operand.value, int)):
+            raise px.Unsupported(f"get_host: the default port is not removed by a slice host[:-k]: {ast.unparse(node.body[0])}")
+        schemes = sorted(px.const(e) for e in t.values[0].comparators[0].elts)
+        if not all(isinstance(x, str) for x in schemes):
+            raise px.Unsupported("get_host: scheme set is not a set of str")
+        i = len(rules)
+        rules.append((schemes, t.values[1].args[0].value, v.slice.upper.operand.value))
+        t.values[0].comparators[0].elts = [ast.Constant(value=f"<SCHEMES{i}>")]
+        t.values[1].args[0] = ast.Constant(value=f"<SUFFIX{i}>")
+        v.slice.upper.operand = ast.Constant(value=0)
+        if len(node.orelse) == 1 and isinstance(node.orelse[0], ast.If):
+            node = node.orelse[0]
+        elif not node.orelse:
+            break
+        else:
+            raise px.Unsupported("get_host: default-port chain has an else branch")
+    return rules
+
+
+def _name(n, ident):
+    return isinstance(n, ast.Name) and n.id == ident
+
+
 def _quote_calls(fn: ast.FunctionDef):
     """every call quote(<arg>, safe=<const>) in fn, in source order: (arg text, safe, keyword node)"""
     out = []
@@ -226,6 +287,13 @@ def gen() -> None:
         kw.value = ast.Constant(value=f"<S{i}>")
     _pin(gcu, CURRENT_URL, "sansio.utils.get_current_url", ["scheme", "host", "root_path", "path", "query_string"])
 
+    # ---- sansio.utils.get_host: skeleton pinned, the default-port rules translated
+    gh = copy.deepcopy(px.find_def(sutl, "get_host"))
+    port_rules = _default_port_rules(gh)
+    if len(port_rules) != 2:
+        raise px.Unsupported(f"get_host: {len(port_rules)} default-port branches, the skeleton pin was written for 2")
+    _pin(gh, GET_HOST, "sansio.utils.get_host", ["scheme", "host_header", "server", "trusted_hosts"])
+
     # ---- DispatcherMiddleware.__call__
     cls = px.find_class(disp, "DispatcherMiddleware")
     _pin(px.find_def(cls, "__call__"), DISPATCH_CALL, "DispatcherMiddleware.__call__", ["self", "environ", "start_response"])
@@ -249,6 +317,9 @@ def gen() -> None:
     t += "(* sansio.utils.get_current_url: safe= of the three quote calls *)\n"
     for name, s in zip(["root", "path", "query"], gcu_safe):
         t += f"Definition gcu_safe_{name} : list N := {_codes(s)}.\n"
+    t += "(* sansio.utils.get_host: (schemes, suffix, k) of each branch `scheme in {..} and host.endswith(suffix): host = host[:-k]` *)\n"
+    t += "Definition default_port_rules : list (list (list N) * list N * nat) :=\n  [" + ";\n   ".join(
+        "([" + "; ".join(_codes(x) for x in schemes) + f"], {_codes(suf)}, {k}%nat)" for schemes, suf, k in port_rules) + "].\n"
     t += "(* DispatcherMiddleware.__call__: the separator of the `in` test, of rsplit and of the rebuilt path_info *)\n"
     t += "Definition dispatch_sep : N := 47.\n"
     px.write_if_changed(os.path.join(COQ, "C15", "Gen.v"), t)
@@ -560,6 +631,51 @@ def run(chk: Check) -> None:
         chk.case(("cururi", scheme, host, root, path, qs), nontrivial=True)
     chk.count("get_current_url", 2500 * K)
 
+    # ------------------------------------------------ sansio.utils.get_host
+    gh_hosts = ["example.com", "10.0.0.80", "web-0", "node8.cluster80", "10.1.2.34", "shard-3.db44", "a8", "host443", "x", "",
+                "[2001:db8::80]", "[::1]", "80", "localhost", "h:8", ":80", "4:43"]
+    gh_names = ["example.com", "10.20.30.80", "gateway0", "10.0.0.3", "2001:db8::8", "::80", "[::1]", "db44", "/tmp/sock", "h0"]
+    gh_cases = [("http", "10.0.0.80:80", None), ("https", "10.1.2.34:443", None), ("ws", None, ("gateway0", 80)),
+                ("wss", None, ("10.0.0.3", 443)), ("http", None, ("2001:db8::8", 80)), ("https", "10.0.0.80:80", None),
+                ("http", "web-0:8080", None), ("ftp", "a:80", None), ("http", None, None), ("http", None, ("/tmp/sock", None))]
+    for _ in range(3000 * K):
+        scheme = rng.choice(["http", "https", "ws", "wss", "ftp", "http", "https"])
+        if rng.random() < 0.6:
+            gh_cases.append((scheme, rng.choice(gh_hosts) + rng.choice(["", ":80", ":443", ":8080", ":8", ":0", ":4430", ":80:80"]), None))
+        else:
+            gh_cases.append((scheme, None, (rng.choice(gh_names), rng.choice([80, 443, 8080, 8, 0, 4430, None]))))
+    for scheme, hh, server in gh_cases:
+        inp = {"op": "get_host", "scheme": scheme, "host_header": hh, "server": list(server) if server else None}
+        st, got = guarded(sutils.get_host, scheme, hh, server)
+        o = lambda x: "~" if x is None else cps(x)
+        line = (f"ghost {cps(scheme)} {o(hh)} {o(server[0]) if server else '~'} "
+                f"{o(str(server[1])) if server and server[1] is not None else '~'}")
+        if st != "ok":
+            chk.fail("get-host-raises", f"get_host raised {st}", inp)
+            add(line, st)
+            continue
+        add(line, "ok " + cps(got))
+        # the property, transcribed: the host as given (or assembled from the server pair), minus exactly the scheme's default port
+        if hh is not None:
+            full = hh
+        elif server is not None:
+            full = server[0]
+            if ":" in full and not full.startswith("["):
+                full = f"[{full}]"
+            if server[1] is not None:
+                full = f"{full}:{server[1]}"
+        else:
+            full = ""
+        want = full
+        if scheme in ("http", "ws") and full.endswith(":80"):
+            want = full[:len(full) - 3]
+        elif scheme in ("https", "wss") and full.endswith(":443"):
+            want = full[:len(full) - 4]
+        if got != want:
+            chk.fail("get-host-default-port", f"get_host = {got!r}, expected {want!r} (only the scheme's default port may be removed)", inp)
+        chk.count("get_host:port-removed" if got != full else "get_host:unchanged")
+        chk.case(("ghost", scheme, hh, server), nontrivial=True)
+
     # ------------------------------------------------ DispatcherMiddleware
     _dispatch(chk, DispatcherMiddleware, add, quick, corpus)
 
@@ -689,9 +805,19 @@ def _e2e(chk, quick, corpus) -> None:
     import werkzeug.urls as wurls
     rng = chk.rng
     hosts = [("example.com", "example.com"), ("exämple.com", "xn--exmple-cua.com"), ("127.0.0.1", "127.0.0.1"), ("[::1]", "[::1]"),
-             ("bücher.example", "xn--bcher-kva.example"), ("localhost", "localhost")]
+             ("bücher.example", "xn--bcher-kva.example"), ("localhost", "localhost"),
+             # names and addresses whose last characters are digits of a default port
+             ("10.0.0.80", "10.0.0.80"), ("web-0", "web-0"), ("node8.cluster80", "node8.cluster80"), ("10.1.2.34", "10.1.2.34"),
+             ("shard-3.db44", "shard-3.db44"), ("192.168.0.100", "192.168.0.100"), ("a8", "a8"), ("host443", "host443"),
+             ("[2001:db8::80]", "[2001:db8::80]"), ("[2001:db8::443]", "[2001:db8::443]")]
     text_pool = [p for p in PIECES if not p.startswith("%") or p in ("%", "%4", "%41", "%zz", "%2F", "%25")] + ["\t", "\n", "\x00", "/", "?", "#"]
-    cases = [(p, q, b) for p, q, b in corpus.get("environ", [])]
+    MODES = ["ctor", "ctor", "assign-path", "assign-root", "assign-base", "assign-all"]
+    cases = [("ctor", p, q, b) for p, q, b in corpus.get("environ", [])]
+    cases += [(m, p, q, b) for m, p, q, b in corpus.get("environ_assign", [])]
+    for h, _ in hosts:           # every host kind with every explicit port under both schemes
+        for scheme in ("http", "https"):
+            for port in ("", ":80", ":443", ":8080"):
+                cases.append(("ctor", "/p", {"x": "1"}, f"{scheme}://{h}{port}/"))
     for _ in range(3000 if quick else 40000):
         p = "/" + "".join(rng.choice(text_pool) for _ in range(rng.randint(0, 5)))
         while p.startswith("//"):
@@ -702,12 +828,38 @@ def _e2e(chk, quick, corpus) -> None:
         h, _ = rng.choice(hosts)
         scheme = rng.choice(["http", "https"])
         port = rng.choice(["", "", ":8080", ":80", ":443"])
-        root = rng.choice(["", "", "/röot", "/a/b", "/x y", "/%41"])
-        cases.append((p, q, f"{scheme}://{h}{port}{_escape_for_builder(root)}/"))
-    for p, q, base in cases:
-        inp = {"op": "environ-roundtrip", "path": p, "query": q, "base_url": base}
+        root = rng.choice(["", "", "/röot", "/a/b", "/x y", "/%41", "/☃", "/ü/€"])
+        mode = rng.choice(MODES)
+        if mode in ("assign-base", "assign-all") and not h.isascii():
+            mode = "assign-path"      # the base_url setter stores the host as given; IDNA happens only in the constructor
+        cases.append((mode, p, q, f"{scheme}://{h}{port}{_escape_for_builder(root)}/"))
+
+    def build(mode, p, q, base):
+        """the same request, given to the builder through the constructor or by assigning attributes afterwards"""
+        ep = _escape_for_builder(p)
+        bs_ = up.urlsplit(base)
+        if mode == "ctor":
+            return EnvironBuilder(path=ep, query_string=q or None, base_url=base)
+        if mode == "assign-path":
+            b = EnvironBuilder(query_string=q or None, base_url=base)
+            b.path = ep
+        elif mode == "assign-root":
+            b = EnvironBuilder(path=ep, query_string=q or None, base_url=f"{bs_.scheme}://{bs_.netloc}/")
+            b.script_root = bs_.path.rstrip("/")
+        elif mode == "assign-base":
+            b = EnvironBuilder(path=ep, query_string=q or None)
+            b.base_url = base
+        else:
+            b = EnvironBuilder(query_string=q or None)
+            b.base_url = base
+            b.script_root = bs_.path.rstrip("/")
+            b.path = ep
+        return b
+
+    for mode, p, q, base in cases:
+        inp = {"op": "environ-roundtrip", "given": mode, "path": p, "query": q, "base_url": base}
         try:
-            b = EnvironBuilder(path=_escape_for_builder(p), query_string=q or None, base_url=base)
+            b = build(mode, p, q, base)
             env = b.get_environ()
             r = Request(env)
             got_path, got_args, got_host, got_url, got_root = r.path, list(r.args.items(multi=True)), r.host, r.url, r.root_path
@@ -729,6 +881,23 @@ def _e2e(chk, quick, corpus) -> None:
             want_host += f":{bs.port}"
         if got_host != want_host:
             chk.fail("request-host", f"Request.host = {got_host!r}, expected {want_host!r}", inp)
+        # the PATH_INFO / SCRIPT_NAME tunnel carries UTF-8 bytes in latin-1 clothing
+        try:
+            raw = (env["SCRIPT_NAME"] + env["PATH_INFO"]).encode("latin-1")
+        except UnicodeEncodeError:
+            raw = None
+        if raw != (want_root + p).encode("utf-8", "surrogatepass"):
+            chk.fail("environ-path-bytes", f"SCRIPT_NAME + PATH_INFO carry {raw!r}", inp)
+        # without a Host header the server address and port are used instead
+        if not want_host.startswith("["):
+            env2 = {k: v for k, v in env.items() if k != "HTTP_HOST"}
+            try:
+                h2 = Request(env2).host
+            except Exception as e:  # noqa: BLE001
+                h2 = repr(e)
+            if h2 != want_host:
+                chk.fail("request-host-server-fallback", f"SERVER_NAME={env['SERVER_NAME']!r} SERVER_PORT={env['SERVER_PORT']!r}: "
+                         f"Request.host = {h2!r}, expected {want_host!r}", inp)
         # the reconstructed URL denotes the same resource: same scheme and authority, and its path and query decode to what was given
         try:
             us = up.urlsplit(wurls.iri_to_uri(got_url))
@@ -754,8 +923,8 @@ def _e2e(chk, quick, corpus) -> None:
             w = repr(e)
         if w != got_url:
             chk.fail("wsgi-get_current_url-undecoded", f"wsgi.get_current_url(environ) = {w!r} but Request(environ).url = {got_url!r}", inp)
-        chk.count("e2e:environ-roundtrip")
-        chk.case(("e2e", p, tuple(q.items()), base), nontrivial=True,
+        chk.count("e2e:environ-roundtrip:" + mode)
+        chk.case(("e2e", mode, p, tuple(q.items()), base), nontrivial=True,
                  sample={"op": "EnvironBuilder->Request", "path": p, "query": q, "base_url": base, "impl": {"path": got_path, "url": got_url}}
                  if len(p) > 4 else None)
 
